@@ -5,7 +5,7 @@ package patcher
 
 import (
 	"context"
-	"reflect"
+	"k8s.io/apimachinery/pkg/api/equality"
 
 	v1 "k8s.io/api/core/v1"
 	"sigs.k8s.io/controller-runtime/pkg/client"
@@ -18,7 +18,9 @@ func ShouldUpdatePodGroupStatus(
 	podGroup *v2alpha2.PodGroup, podGroupMetadata *metadata.PodGroupMetadata,
 ) bool {
 	updatedStatus := getStatusWithMetadata(podGroupMetadata, podGroup.Status)
-	return !reflect.DeepEqual(&podGroup.Status, updatedStatus)
+	// Semantic equality: the same quantity may be formatted differently (1Gi vs 1073741824) depending on the order in
+	// which the pods were summed, and an empty list equals an absent one.
+	return !equality.Semantic.DeepEqual(&podGroup.Status, updatedStatus)
 }
 
 func UpdatePodGroupStatus(
